@@ -46,6 +46,10 @@ finally:
 # checks against /repo
 rc, out = sh('git -C /repo status --porcelain'); assert out.strip() == '', 'repo dirty: ' + out
 rc, out = sh('git -C /repo apply %s' % patch); assert rc == 0, out
+# evidence files describe the unchanged tree: keep them out of the way of the mutated runs
+ev_backup = '/tmp/seedeval_evidence_' + name
+shutil.rmtree(ev_backup, ignore_errors=True)
+shutil.copytree('/verif/evidence', ev_backup)
 try:
     for p in props:
         t0 = time.time()
@@ -55,6 +59,9 @@ try:
                                  'first_lines': lines[:4]}
 finally:
     sh('git -C /repo checkout -- .')
+    shutil.rmtree('/verif/evidence', ignore_errors=True)
+    shutil.copytree(ev_backup, '/verif/evidence')
+    shutil.rmtree(ev_backup, ignore_errors=True)
     rc, out = sh('git -C /repo status --porcelain'); assert out.strip() == '', out
 meta['caught_by'] = [p for p, r in meta['checks_run'].items() if r['exit'] == 1 and r['violations'] > 0]
 out_dir = '/verif/seeded/' + name
